@@ -955,6 +955,13 @@ public:
     SourceLocation L = FD->getLocation();
     if (const FunctionDecl *Def = FD->getDefinition())
       L = Def->getLocation();
+    // an instantiated member defined out of line: the body lives where the
+    // pattern's definition is, not at the in-class declaration
+    if (const FunctionDecl *P = FD->getTemplateInstantiationPattern()) {
+      const FunctionDecl *PD = nullptr;
+      if (P->isDefined(PD) && PD)
+        L = PD->getLocation();
+    }
     if (fileUnderRoot(L, Rel)) {
       J.attribute("file", Rel);
       J.attribute("line", lineOf(L));
